@@ -296,7 +296,7 @@ func rtExotic(t string, rng *rand.Rand) []string {
 	out = append(out, t+";x=1", t+"%00", t+"%0a", "/"+strings.Repeat("a", 8000)+"/.."+t, "https://files.example"+t,
 		"/../../../../../../"+strings.TrimPrefix(t, "/"), "/%2e%2e/%2e%2e/canary.txt", "/..%2fcanary.txt", "/..%5ccanary.txt",
 		"/%2e%2e/plain-evil/secret.txt", "/..;/canary.txt", "//canary.txt", "/.%00./canary.txt", "/sub/%2e%2e/%2e%2e/canary.txt",
-		"/\\..\\canary.txt", "/....//canary.txt", "/%c0%ae%c0%ae/canary.txt", "/sub/..%252f..%252fcanary.txt")
+		"/\\..\\canary.txt", "/....//canary.txt", t+"/index.html", "/..\\x", "/a\\..\\b", "/%2e%2e%5cx", "/x/..%5c..%5ccanary.txt", "/sub/index.html", "/%c0%ae%c0%ae/canary.txt", "/sub/..%252f..%252fcanary.txt")
 	rng.Shuffle(len(out), func(i, j int) { out[i], out[j] = out[j], out[i] })
 	if len(out) > 6 {
 		out = out[:6]
@@ -351,12 +351,29 @@ func rtWorker(fd map[string]string, cases []rtCase, seed int64, exoticEvery int)
 		if exoticEvery > 0 && i%exoticEvery == 0 {
 			for _, et := range rtExotic(t, rng) {
 				nex++
+				n0 := s.NLines()
 				resp := srv.Raw(s.Addr, "", []byte("GET "+et+" HTTP/1.1\r\nHost: files.example\r\nConnection: close\r\n\r\n"), 3*time.Second)
 				if bytes.Contains(resp.Raw, []byte("CANARY")) {
 					fs = append(fs, rtFinding{"file-outside-tree-served", map[string]any{"target": et, "serve_files_from": c.Cfg, "status": resp.Status, "body": string(resp.Body)}})
 				}
 				if c.Cfg == "none" && resp.Status == 200 && !bytes.Contains(resp.Body, []byte("pinnedpubkey")) && len(resp.Body) > 0 {
 					fs = append(fs, rtFinding{"content-served-while-unset", map[string]any{"target": et, "status": resp.Status, "body": string(resp.Body)}})
+				}
+				if c.Cfg == "file" && !(resp.Status == 200 && bytes.Equal(resp.Body, []byte("SINGLE-FILE-CONTENT\n"))) {
+					// whatever the spelling: once the file handler has the request, the one file is the answer
+					for k := 0; k < 20; k++ {
+						ran := false
+						for _, l := range s.Lines()[n0:] {
+							if !l.CL.Plain && strings.Contains(l.CL.Line, "File requested") {
+								ran = true
+							}
+						}
+						if ran {
+							fs = append(fs, rtFinding{"single-file-not-returned", map[string]any{"target": et, "serve_files_from": c.Cfg, "status": resp.Status, "body": string(resp.Body), "location": resp.Header["location"]}})
+							break
+						}
+						time.Sleep(500 * time.Microsecond)
+					}
 				}
 				// a shell left attached by an exotic spelling of a shell route must go before the next case
 				time.Sleep(200 * time.Microsecond)
@@ -455,6 +472,6 @@ func routesCampaign(r *ev.Run) {
 	r.Add("distinct_nontrivial", nontrivial)
 	r.Set("plain_targets", len(cases))
 	r.Set("exotic_spellings", nexotic)
-	r.Rule("TLC enumerates every target of up to N path tokens (file and directory names of the tree, a missing name, '..', '.', the empty segment, the endpoint words c i o io, an id) with and without a final slash under four configurations (unset, single file, a plain tree, a tree containing files named like the endpoints) and computes the outcome from Routes.tla; each is requested from a real hsrv over TLS following redirects and classified (script / input / output / duplex stream by the broker's own records, file content, listing, 404) and compared; hostile spellings (encoded and double-encoded dot segments, encoded slashes and backslashes, ;parameters, NUL, 8 KiB padding, absolute form) are only required never to return canary content placed above, beside and similar to the tree; non-trivial = targets whose outcome is not a 404")
+	r.Rule("TLC enumerates every target of up to N path tokens (file and directory names of the tree, a missing name, '..', '.', the empty segment, the endpoint words c i o io, an id, index.html, a name with a backslash and dots) with and without a final slash under four configurations (unset, single file, a plain tree, a tree containing files named like the endpoints) and computes the outcome from Routes.tla; each is requested from a real hsrv over TLS following redirects and classified (script / input / output / duplex stream by the broker's own records, file content, listing, 404) and compared; hostile spellings (encoded and double-encoded dot segments, encoded slashes and backslashes, ;parameters, NUL, 8 KiB padding, absolute form) are required never to return canary content placed above, beside and similar to the tree and, in single-file mode, to be answered with the one file whenever the file handler reports the request; non-trivial = targets whose outcome is not a 404")
 	r.Assume("request targets are a class abstraction with seeded hostile spellings, not every raw target; symbolic links leaving the tree are not generated")
 }
